@@ -12,6 +12,40 @@ def to_coq_expr(e, names):
     return e
 
 
+def _block(t, i):
+    """(body, index after the closing brace) of the `{` at t[i]"""
+    d = 0
+    for k in range(i, len(t)):
+        if t[k] == "{":
+            d += 1
+        elif t[k] == "}":
+            d -= 1
+            if d == 0:
+                return t[i + 1:k], k + 1
+    raise F.FactError("connect_node: unbalanced braces")
+
+
+def skips_unconnected(cn):
+    """The fact: in the loop over the left nodes, the cost of a node that is not connected to BOS is never computed nor
+    compared.  Two spellings of the same control flow are read:
+      for .. { if !l_node.is_connected_to_bos() { continue; } <rest with conn.cost / the update> }
+      for .. { if l_node.is_connected_to_bos() { <all of conn.cost / the update> } }       (no else, nothing after the if)
+    In both, every use of conn.cost, new_cost and every assignment to min_cost / prev_idx inside the loop is under the guard."""
+    m = re.search(r"for\s*\(\s*\w+\s*,\s*l_node\s*\)\s*in\s+self\.ends\[begin\]\.iter\(\)\.enumerate\(\)\s*\{", cn)
+    if not m:
+        return False
+    body, _ = _block(cn, m.end() - 1)
+    work = r"conn\.cost\(|\bnew_cost\b|\bmin_cost\s*=[^=]|\bprev_idx\s*=[^=]"
+    g = re.match(r"\s*if\s+!\s*l_node\.is_connected_to_bos\(\)\s*\{\s*continue\s*;\s*\}", body)
+    if g:
+        return re.search(work, body[g.end():]) is not None
+    g = re.match(r"\s*if\s+l_node\.is_connected_to_bos\(\)\s*\{", body)
+    if g:
+        inner, after = _block(body, g.end() - 1)
+        return body[after:].strip() == "" and re.search(work, inner) is not None
+    return False
+
+
 def gen():
     t = F.strip_comments(F.src("sudachi/src/dic/connect.rs"))
     body = F.fn_body(t, "index", "dic/connect.rs")
@@ -47,11 +81,14 @@ def gen():
     out.append('Definition connect_cmp : string := "%s".\n' % cmp_op)
     if not re.search(r"let\s+new_cost\s*=\s*l_node\.total_cost\(\)\s*\+\s*connect_cost\s*\+\s*node_cost\s*;", cn):
         raise F.FactError("connect_node: new_cost is no longer total + connect_cost + node_cost")
-    if not re.search(r"if\s+!l_node\.is_connected_to_bos\(\)\s*\{\s*continue;", cn):
+    if not skips_unconnected(cn):
         raise F.FactError("connect_node: unconnected-node skip not recognised")
     # EOS node parameters
     ce = F.fn_body(lt, "connect_eos", "analysis/lattice.rs")
-    me = re.search(r"Node::new\(\s*eos_start\s*,\s*eos_end\s*,\s*(\d+)\s*,\s*(\d+)\s*,\s*(\d+)\s*,", ce)
+    # the fact is the (left_id, right_id, cost) arguments; the two position arguments may be spelled with any locals
+    me = re.search(r"Node::new\(\s*[^,;{}]+,\s*[^,;{}]+,\s*(\d+)\s*,\s*(\d+)\s*,\s*(\d+)\s*,\s*WordId::EOS\s*\)", ce)
+    if me and len(re.findall(r"Node::new\(", ce)) != 1:
+        me = None
     if not me:
         raise F.FactError("connect_eos: EOS node parameters not recognised")
     out.append("Definition eos_left : N := %s%%N.\nDefinition eos_right : N := %s%%N.\nDefinition eos_cost : Z := %s%%Z.\n" % me.groups())
